@@ -270,6 +270,8 @@ func renderRows(l []Row) string {
 	return "[" + strings.Join(p, " ") + "]"
 }
 
+var skipLongRows bool
+
 func descriptors(maxLen int) {
 	specs := withDescs(keySpecs())
 	// rows over K1 in {0,1}, K2 in {a,b}, K3 in {0,1}: 8 symbols
@@ -300,7 +302,7 @@ func descriptors(maxLen int) {
 		gen(nil, n)
 	}
 	// long row lists (merge path of the stable sort): runs of two symbols, all compositions of 23 into <= 3 runs
-	for a := 1; a <= 23; a++ {
+	for a := 1; a <= 23 && !skipLongRows; a++ {
 		for b2 := 0; a+b2 <= 23; b2++ {
 			c3 := 23 - a - b2
 			var l []Row
@@ -700,6 +702,12 @@ func main() {
 	}
 	descriptors(rowLen)
 	fieldNameTypes(rowLen)
+	localTypes()
+	// once more in the same process, after every record type, field name and stack has been sorted once (a
+	// descriptor's meaning must not depend on what was sorted before); the row lists one element shorter
+	skipLongRows = true
+	descriptors(rowLen - 1)
+	fieldNameTypes(rowLen - 1)
 	localTypes()
 	r.Cov["states"] = inputs
 	r.Cov["transitions"] = evals
